@@ -366,8 +366,19 @@ def replay_compressor(size, block, nstages):
     data = bytes((i * 31 + 7) & 0xFF for i in range(size))
     c = SevenZipCompressor(filters=filters, password="pw" if nstages >= 3 else None, blocksize=block)
     out = io.BytesIO()
-    insize, fout, crc = c.compress(io.BytesIO(data), out)
+    asked = []
+
+    class Src(io.BytesIO):
+        def read(self, n=-1):
+            asked.append(n)
+            return super().read(n)
+
+    insize, fout, crc = c.compress(Src(data), out)
     fl = c.flush(out)
+    unbounded = [n for n in asked if n is None or n < 0 or n > block]
+    if unbounded:
+        return True, "the source was asked for %s bytes at once (block size %d)" % (
+            "ALL remaining" if unbounded[0] is None or unbounded[0] < 0 else unbounded[0], block)
     ok = insize == size and crc == zlib.crc32(data) and fout + fl == len(out.getvalue()) == c.packsize and \
         c.digest == zlib.crc32(out.getvalue()) and c.unpacksizes[-1] == size
     return (not ok), "insize=%d fout+flush=%d written=%d packsize=%d" % (insize, fout + fl, len(out.getvalue()), c.packsize)
